@@ -14,13 +14,20 @@ It provides Function classes.
 import regex
 import functools
 from . import Token
-from .parenthesis import Parenthesis
+from .parenthesis import Parenthesis, _check_operand_end
+from ..errors import TokenError
 
 
 class Function(Token):
     _re = regex.compile(r'^\s*@?(?P<name>[A-Z_][\w\.]*)\(\s*', regex.IGNORECASE)
 
-    def ast(self, tokens, stack, builder, check_n=lambda *args: True):
+    def ast(self, tokens, stack, builder, check_n=lambda *args: True,
+            check_prev=True):
+        if check_prev:
+            from .operand import Operand
+            if tokens and isinstance(tokens[-1], Operand):
+                raise TokenError
+            _check_operand_end(tokens)
         super(Function, self).ast(tokens, stack, builder)
         stack.append(self)
         t = Parenthesis('(')
@@ -52,6 +59,8 @@ class Array(Function):
             token.ast(tokens, stack, builder)
             if self.has_sep:
                 check_n = functools.partial(_check_tkn_n_args, token.get_n_args)
-                Function('ARRAY(').ast(tokens, stack, builder, check_n=check_n)
+                Function('ARRAY(').ast(
+                    tokens, stack, builder, check_n=check_n, check_prev=False
+                )
             else:
                 Parenthesis(')').ast(tokens, stack, builder)
